@@ -32,7 +32,7 @@ META = {
     "outside": ["WORKING_ADDITIONALLY / REMOVED entries (never written by base code)", "plotting back ends", "negative time indices", "log lengths beyond the bound"],
 }
 
-REQUIRED_COVERS = {"any": ["gantt:task:multi-run", "gantt:worker:absence-run", "extract:partial", "extract:out-of-range", "extract:absence-list-unrelated-to-log", "rows:ready", "lastdate"]}
+REQUIRED_COVERS = {"any": ["gantt:task:multi-run", "gantt:worker:absence-run", "extract:partial", "extract:out-of-range", "extract:absence-list-unrelated-to-log", "rows:ready", "lastdate", "lastdate:after-insert"]}
 
 KINDS = {
     "task": (-1, 2),
@@ -48,6 +48,15 @@ def _mk(kind, seq, symbolic, as_int=False):
     from pDESy.model.base_worker import BaseWorker, BaseWorkerState
     from pDESy.model.base_facility import BaseFacility, BaseFacilityState
 
+    if kind == "subtask":
+        # a sub-project task that is linked to a result file and carries its own unit length: charts use the caller's unit all the same
+        from pDESy.model.base_subproject_task import BaseSubProjectTask
+
+        o = BaseSubProjectTask(file_path="sub.json", name="x", ID="x")
+        o.read_json_file = True
+        o.unit_timedelta = datetime.timedelta(days=3)
+        o.state_record_list = list(seq) if symbolic else ([int(s) for s in seq] if as_int else [BaseTaskState(int(s)) for s in seq])
+        return o
     cls, enum = {
         "task": (BaseTask, BaseTaskState),
         "component": (BaseComponent, BaseComponentState),
@@ -236,14 +245,14 @@ def _rows(p, ctx, as_int):
         from pDESy.model.base_workflow import BaseWorkflow
         from pDESy.model.base_product import BaseProduct
 
-        owner = BaseWorkflow([o]) if kind == "task" else BaseProduct([o])
+        owner = BaseWorkflow([o]) if kind in ("task", "subtask") else BaseProduct([o])
         ok, df = ctx.call(owner.create_data_for_gantt_plotly, init, unit, finish_margin=m, view_ready=True)
     else:
         ok, df = ctx.call(o.create_data_for_gantt_plotly, init, unit, finish_margin=m, view_ready=True)
     if not ok:
         ctx.fail("rows:%s:raises:%s" % (kind, exc_tag(df)))
         return
-    if kind in ("task", "component"):
+    if kind in ("task", "component", "subtask"):
         exp = [("READY", a, b) for a, b in _runs(seq, 1)] + [("WORKING", a, b) for a, b in _runs(seq, 2)]
     else:
         exp = [("READY", a, b) for a, b in _runs(seq, 0)] + [("ABSENCE", a, b) for a, b in _runs(seq, -1)] + [("WORKING", a, b) for a, b in _runs(seq, 1)]
@@ -302,6 +311,38 @@ def lastdate(p, ctx):
     ctx.cover("lastdate")
     ctx.sig = ("lastdate", int(use_arg), int(p["setinit"]), str(r), str(unit))
     ctx.nontrivial = True
+
+
+def lastdate_after_insert(p, ctx):
+    """The last step of a really simulated and then edited project (absence steps inserted) falls on the given date:
+    'last step' is the last entry of the logs, which the edit must have kept aligned with project.time."""
+    from model.family import build, sim_kwargs
+    from props.histcore import Sim
+
+    spec = {"tasks": [{"w": "$w0"}, {"w": "$w1"}], "edges": [[0, 1, 0]], "teams": [{"targets": [0, 1], "workers": [{"skills": {"0": 1, "1": 1}}]}], "run": {"max_time": 10}}
+    with Sim(ctx):
+        M = build(spec, p, ctx.symbolic)
+        ok, r = ctx.call(M.project.simulate, **sim_kwargs(M))
+        if ok:
+            ok, r = ctx.call(M.project.insert_absence_time_list, [p["i0"], p["i1"]])
+        if not ok:
+            ctx.aborted = exc_tag(r)
+            return
+        u = ctx.c(p["u"])
+        last = datetime.datetime(2024, 3, 1, 0, 0, 0)
+        unit = datetime.timedelta(minutes=u)
+        ok, r = ctx.call(M.project.set_last_datetime, last, unit_timedelta=unit, set_init_datetime=bool(p["setinit"]))
+        if not ok:
+            ctx.fail("lastdate:raises:%s" % exc_tag(r))
+            return
+        n = len(M.tasks[0].state_record_list)
+        if r + (n - 1) * unit != last:
+            ctx.fail("lastdate:last-log-entry-not-on-date")
+        if len(M.project.cost_list) != n or ctx.c(M.project.time) != n:
+            ctx.fail("lastdate:logs-and-clock-disagree-after-insert")
+        ctx.cover("lastdate:after-insert")
+        ctx.sig = ("lastdate-after-insert", n, u)
+        ctx.nontrivial = True
 
 
 def obligations(tier, seed):
@@ -369,6 +410,13 @@ def obligations(tier, seed):
             obs.append({"name": "rows-ms/%s/unit=%dms/q=%d/via=%d" % (kind, u, q, via), "harness": "rows",
                         "cube": {"kind": kind, "n": 4, "u": u, "q": q, "us": 0, "unit_ms": True, "via_container": via},
                         "params": [["s%d" % i, lo, hi] for i in range(4)], "timeout": 150 if not thorough else 600})
+    for (u, q, via) in ((2, 1, False), (3, 0, True)):
+        obs.append({"name": "rows-subproject-task/unit=%dmin/q=%d/via=%d" % (u, q, via), "harness": "rows",
+                    "cube": {"kind": "subtask", "n": 3, "u": u, "q": q, "via_container": via},
+                    "params": [["s%d" % i, -1, 2] for i in range(3)], "timeout": 150 if not thorough else 600})
+    for setinit in (0, 1):
+        obs.append({"name": "lastdate-after-insert/setinit=%d" % setinit, "harness": "lastdate_after_insert", "cube": {"setinit": setinit},
+                    "params": [["w0", 1, 2], ["w1", 1, 2], ["i0", 0, 5], ["i1", 0, 5], ["u", 1, 2]], "pre": "i0 < i1", "timeout": 150 if not thorough else 600, "engine": "zsym"})
     for use_arg in (0, 1):
         for setinit in (0, 1):
             obs.append({
